@@ -31,7 +31,7 @@ def driver_path(flavour):
     return os.path.join(BUILD, "%s-%s" % (build_tag(), flavour), "debug", "cdrv")
 
 
-def build(flavours=("sync", "asyncstd", "tokio")):
+def build(flavours=("sync", "plain", "asyncstd", "tokio")):
     r = subprocess.run([os.path.join(VERIF, "tools", "build")] + list(flavours),
                        capture_output=True, text=True)
     if r.returncode != 0:
